@@ -139,6 +139,13 @@ THEOREM_MODULES.append("Yarel.Props.FnsTie.FiberSwitch")
 REQUIRED_THEOREMS += ['load_rejects_finished', 'load_rejects_called', 'load_effect', 'load_first_effect', 'load_isolation', 'load_parks_caller', 'load_target_keeps', 'unload_no_caller', 'unload_effect', 'unload_isolation', 'unload_parks_yielder', 'unload_caller_keeps']
 
 
+# call_closure / return_impl translated from vm.rs on every run (Props/FnsTie/CallReturn): wrong arity and exhausted call depth are handed to the
+# exception machinery and push no frame; a call saves the resume point and pushes a frame at the callee; Return cuts the stack to the frame's base,
+# puts the result there and resumes the caller ("calls are atomic"); the last Return of a called fiber hands the result to the caller
+THEOREM_MODULES.append("Yarel.Props.FnsTie.CallReturn")
+REQUIRED_THEOREMS += ['call_depth_limit', 'return_finishes_fiber']
+
+
 def interleaving_programs():
     """All interleavings of the calls of two fibers with 2 and 3 steps (enumerated, not sampled). Each fiber yields its step
     index and receives a token; expected output is computed here from the schedule alone."""
